@@ -73,6 +73,7 @@ def main():
         out["reach"] = T.COUNTS["reach"]
         out["traced_detail"] = T.TRACED[-3:]
         out["dropped"] = T.COUNTS["dropped"]
+        out["realised_samples"] = T.REALISED[:12]
     except BaseException as e:  # noqa
         out["verdict"] = "error"
         out["error"] = "".join(traceback.format_exception(type(e), e, e.__traceback__))[-3000:]
